@@ -14,7 +14,7 @@ def Rel : List String → List ITok → List HTok → Prop
       it.tok = h.tok ∧ (∀ x, x ∈ h.hs ↔ x ∈ D) ∧ Rel (D.filter (fun m => !it.ends.contains m)) r hr
   | _, _, _ => False
 
-theorem objBody_eq (vc : Bool) (m : Macro) (hs : List String) :
+theorem objBody_eq (vc : XCfg) (m : Macro) (hs : List String) :
     (refBody m hs).map (·.tok) = objBody vc m := by
   unfold refBody objBody subst
   induction m.body with
@@ -23,7 +23,7 @@ theorem objBody_eq (vc : Bool) (m : Macro) (hs : List String) :
     cases b with
     | raw t => simp [List.filterMap_cons, ih]
     | arg i => simp [List.filterMap_cons, ih]
-    | va => cases vc <;> simp [List.filterMap_cons, ih]
+    | va => cases h : vc.vaCommas <;> simp [List.filterMap_cons, ih, h]
 
 theorem refBody_hs (m : Macro) (hs : List String) : ∀ h ∈ refBody m hs, h.hs = hs := by
   intro h hh
@@ -61,7 +61,7 @@ theorem expandR_obj (f : Nat) (tbl : List Macro) (h : HTok) (hr : List HTok) (m 
 
 /-! ### the machine: one token that is passed on / one token that is replaced -/
 
-theorem fill_cons (vc : Bool) (X : Nat) (t : ITok) (s0 s1 : PP) (ho : s0.output = [])
+theorem fill_cons (vc : XCfg) (X : Nat) (t : ITok) (s0 s1 : PP) (ho : s0.output = [])
     (hp : processToken vc X t s0 = .ok s1) :
     fill vc (X + 1) { s0 with input := t :: s0.input } = fill vc X s1 := by
   cases s0 with
@@ -73,7 +73,7 @@ theorem fill_cons (vc : Bool) (X : Nat) (t : ITok) (s0 s1 : PP) (ho : s0.output 
     rw [hp]
 
 /-- the token was replaced (nothing output): the consumer continues from the new state -/
-theorem drain_skip (vc : Bool) (n1 : Nat) (t : ITok) (s0 s1 : PP) (acc : List Tok) (R : List Tok × PP)
+theorem drain_skip (vc : XCfg) (n1 : Nat) (t : ITok) (s0 s1 : PP) (acc : List Tok) (R : List Tok × PP)
     (ho : s0.output = []) (hp : processToken vc (n1 + 1 + 1 + 1 + 1 + 1) t s0 = .ok s1)
     (hd : drain vc n1 s1 acc = .ok R) :
     drain vc (n1 + 1 + 1 + 1 + 1 + 1 + 1 + 1 + 1) { s0 with input := t :: s0.input } acc = .ok R := by
@@ -96,7 +96,7 @@ theorem drain_skip (vc : Bool) (n1 : Nat) (t : ITok) (s0 s1 : PP) (acc : List To
       exact drain_mono vc _ _ _ _ hd2 (by simp)
 
 /-- the token was passed on: it is the next token the consumer sees -/
-theorem drain_out (vc : Bool) (n2 : Nat) (t : ITok) (s0 s1 : PP) (acc : List Tok) (R : List Tok × PP) (o : Tok)
+theorem drain_out (vc : XCfg) (n2 : Nat) (t : ITok) (s0 s1 : PP) (acc : List Tok) (R : List Tok × PP) (o : Tok)
     (ho : s0.output = []) (hp : processToken vc (n2 + 1 + 1 + 1 + 1 + 1) t s0 = .ok s1) (ho1 : s1.output = [o])
     (hd : drain vc n2 { s1 with output := [] } (o :: acc) = .ok R) :
     drain vc (n2 + 1 + 1 + 1 + 1 + 1 + 1 + 1 + 1) { s0 with input := t :: s0.input } acc = .ok R := by
@@ -146,7 +146,7 @@ theorem rel_expand (D : List String) (n : String) (ends : List String) (B0 : Lis
   · rw [hb bl (by simp)]; exact hd
   · rw [filter_after_expand D ends n hn]; exact hrel
 
-theorem obj_sim (vc : Bool) : ∀ (k : Nat) (s : PP) (hl : List HTok), ObjInv vc s → s.output = [] →
+theorem obj_sim (vc : XCfg) : ∀ (k : Nat) (s : PP) (hl : List HTok), ObjInv vc s → s.output = [] →
     smeas vc s ≤ k → Rel s.disabled s.input hl →
     ∀ (nref : Nat) (r : List HTok), expandR nref s.table hl = .ok r →
     ∀ acc, ∃ n s', drain vc n s acc = .ok (acc.reverse ++ r.map (·.tok), s') := by
@@ -310,7 +310,7 @@ theorem rel_init : ∀ (toks : List Tok),
     simp only [List.map_cons, Rel]
     exact ⟨trivial, by simp, by simpa using rel_init r⟩
 
-theorem drain_det (vc : Bool) (s : PP) (acc : List Tok) (n m : Nat) (a b : List Tok × PP)
+theorem drain_det (vc : XCfg) (s : PP) (acc : List Tok) (n m : Nat) (a b : List Tok × PP)
     (h1 : drain vc n s acc = .ok a) (h2 : drain vc m s acc = .ok b) : a = b := by
   have e1 := drain_mono_le vc s acc (.ok a) (by simp) n m h1
   have e2 := drain_mono_le vc s acc (.ok b) (by simp) m n h2
@@ -319,7 +319,7 @@ theorem drain_det (vc : Bool) (s : PP) (acc : List Tok) (n m : Nat) (a b : List 
   exact Res.ok.inj e2
 
 /-- OCCA's expansion of a line equals the hide-set expansion of the same tokens on every object-like table -/
-theorem expandLine_obj_agrees (vc : Bool) (tbl : List Macro) (toks : List Tok) (hobj : ObjTable tbl)
+theorem expandLine_obj_agrees (vc : XCfg) (tbl : List Macro) (toks : List Tok) (hobj : ObjTable tbl)
     (hnd : NoDefined vc tbl) (ht : ∀ t ∈ toks, t.text ≠ "defined")
     (n n' : Nat) (o : List Tok) (s' : PP) (r : List HTok)
     (h1 : expandLine vc n { table := tbl } toks = .ok (o, s'))
